@@ -11,7 +11,7 @@ import ast
 
 from .core import Unsupported, find_def
 from .driver_py import dotted
-from .lazy import normalise
+from .lazy import Inliner, canon, normalise, return_paths
 
 OUTPUTS = ["GenCtor.v"]
 ABSTRACT, INIT, TREE, INDIVIDUAL = "pyhms/demes/abstract_deme.py", "pyhms/demes/initialize.py", "pyhms/tree.py", "pyhms/core/individual.py"
@@ -19,7 +19,7 @@ DEMES = {"EADeme": "pyhms/demes/ea_deme.py", "DEDeme": "pyhms/demes/de_deme.py",
          "LocalDeme": "pyhms/demes/local_deme.py", "LHSDeme": "pyhms/demes/lhs_deme.py", "SobolDeme": "pyhms/demes/sobol_deme.py"}
 # calls that build values the model does not contain; none of them evaluates the objective or reads / writes a modelled field
 OPAQUE_CALLS = {"config.__dict__.copy", "config.ea_class.create", "DE", "SHADE", "CMAEvolutionStrategy", "LatinHypercube", "Sobol", "get_initial_stds", "get_initial_sigma0",
-                "len", "config.__dict__.get", "sample_uniform", "sample_normal", "np.copy", "np.array", "float", "int", "dict", "list"}
+                "len", "config.__dict__.get", "np.copy", "np.array", "float", "int", "dict", "list"}
 TRACKED = {"_level", "_started_at", "_active", "_hibernating", "_history", "_children", "_problem", "_n_evals", "_sprout_seed", "_pop_size", "_init_pop_size"}
 SEEDOBJ = "{| s_org := OSeedObject; s_fit := true; s_own := false |}"
 
@@ -60,7 +60,7 @@ class CTr:
                     return False
             if isinstance(n, ast.Attribute) and n.attr in ("_history", "_children", "evaluate", "evaluate_population", "fitness", "_active", "_hibernating"):
                 return False
-            if isinstance(n, ast.Name) and isinstance(st["env"].get(n.id), V) and st["env"][n.id].ty in ("pop", "ind", "gens"):
+            if isinstance(n, ast.Name) and isinstance(st["env"].get(n.id), V) and st["env"][n.id].ty in ("pop", "ind", "gens") and st["env"][n.id].code != SEEDOBJ:
                 return False
             if isinstance(n, (ast.Lambda, ast.NamedExpr, ast.Await, ast.Yield, ast.YieldFrom)):
                 return False
@@ -183,14 +183,18 @@ class CTr:
                 n = self.expr(size, st)
                 if n.ty != "nat":
                     self.bad(size, "population size")
-                if isinstance(init, ast.Call) and dotted(init.func) == "sample_uniform" and self.opaque_ok(init, st):
-                    org = "OUniform"
-                elif isinstance(init, ast.Call) and dotted(init.func) == "sample_normal" and init.args and self.expr(init.args[0], st).ty == "genome" \
-                        and self.expr(init.args[0], st).code == "OSeedGenome" and all(self.opaque_ok(x, st) for x in init.args[1:] + [k.value for k in init.keywords]):
-                    org = "ONormal"
-                else:
+                iv = self.expr(init, st)
+                if iv.ty != "initializer":
                     self.bad(init, "initializer")
+                org = iv.code
                 return V(f"(gen_create_population {n.code} {org} {self.own(problem, st)})", "pop")
+            if d == "sample_uniform" and all(self.opaque_ok(x, st) for x in list(e.args) + [k.value for k in e.keywords]):
+                return V("OUniform", "initializer")
+            if d == "sample_normal" and e.args and self.expr(e.args[0], st).ty == "genome" and self.expr(e.args[0], st).code == "OSeedGenome" \
+                    and all(self.opaque_ok(x, st) for x in e.args[1:] + [k.value for k in e.keywords]):
+                return V("ONormal", "initializer")
+            if d in ("sample_uniform", "sample_normal"):
+                self.bad(e, "initializer")
             if d == "EvalCountingProblem" and len(e.args) == 1 and self.opaque_ok(e.args[0], st):
                 return V("", "ownproblem")
             if d == "self.sampler.random" and len(e.args) == 1 and not e.keywords:
@@ -256,6 +260,9 @@ class CTr:
             t = s.targets[0]
             if isinstance(t, ast.Name):
                 v = self.expr(s.value, st)
+                if v.ty == "ind" and v.code == SEEDOBJ:
+                    st["env"][t.id] = v            # another name for the sprout seed handed in
+                    return self.block(rest, st)
                 if v.ty in ("pop", "ind", "gens"):
                     nm = self.fresh("v_" + t.id + "_")
                     st["env"][t.id] = V(nm, v.ty)
@@ -353,8 +360,13 @@ class CTr:
         if isinstance(s, ast.If):
             a = st["args"]
             t = s.test
-            is_none = isinstance(t, ast.Compare) and len(t.ops) == 1 and isinstance(t.comparators[0], ast.Constant) and t.comparators[0].value is None \
-                and a and dotted(t.left) == f"{a}.sprout_seed"
+            is_none = isinstance(t, ast.Compare) and len(t.ops) == 1 and isinstance(t.comparators[0], ast.Constant) and t.comparators[0].value is None
+            if is_none:
+                try:
+                    lv = self.expr(t.left, st)
+                    is_none = lv.ty == "ind" and lv.code == SEEDOBJ          # the sprout seed handed to the constructor (under any name)
+                except Unsupported:
+                    is_none = False
             if is_none and isinstance(t.ops[0], (ast.Is, ast.IsNot)):
                 none_branch, some_branch = (s.body, s.orelse) if isinstance(t.ops[0], ast.Is) else (s.orelse, s.body)
                 return f"if a_seed a then ({self.block(list(some_branch) + rest, st)})\n  else ({self.block(list(none_branch) + rest, st)})"
@@ -364,6 +376,19 @@ class CTr:
             self.bad(s, "conditional")
         if isinstance(s, (ast.Import, ast.ImportFrom)):
             return self.block(rest, st)
+        if isinstance(s, ast.For) and not s.orelse and isinstance(s.target, ast.Name) and self.opaque_ok(s.iter, st):
+            # a loop that only fills lists of values the model does not contain (bounds, options)
+            st["env"][s.target.id] = opaque()
+            ok = True
+            for b in s.body:
+                c = b.value if isinstance(b, ast.Expr) else None
+                if isinstance(c, ast.Call) and isinstance(c.func, ast.Attribute) and c.func.attr == "append" and isinstance(c.func.value, ast.Name) and len(c.args) == 1 \
+                        and isinstance(st["env"].get(c.func.value.id), V) and st["env"][c.func.value.id].ty in ("empty", "opaque") and self.opaque_ok(c.args[0], st):
+                    st["env"][c.func.value.id] = opaque()
+                else:
+                    ok = False
+            if ok:
+                return self.block(rest, st)
         self.bad(s, "statement")
 
 
@@ -401,11 +426,15 @@ def individual(mod):
 
     # evaluate
     fn = normalise(find_def(mod, "evaluate", "Individual"))
-    body = [s for s in fn.body if not (isinstance(s, ast.Expr) and isinstance(s.value, ast.Constant))]
+    einl = Inliner(fn, INDIVIDUAL)
+    body = [s for s in fn.body if not (isinstance(s, ast.Expr) and isinstance(s.value, ast.Constant))
+            and not (isinstance(s, (ast.Assign, ast.AnnAssign)) and isinstance(s.targets[0] if isinstance(s, ast.Assign) else s.target, ast.Name))]
     ok = len(body) == 2 and isinstance(body[0], ast.If) and not body[0].orelse and len(body[0].body) == 1 and isinstance(body[1], ast.Return) and dotted(body[1].value) == "self" \
-        and ast.unparse(body[0].body[0]) == "self.fitness = self.problem.evaluate(self.genome)"
+        and isinstance(body[0].body[0], ast.Assign) and ast.unparse(body[0].body[0].targets[0]) == "self.fitness" \
+        and ast.unparse(einl.inline(body[0].body[0].value, body[0].body[0])) == "self.problem.evaluate(self.genome)"
     if not ok:
         raise Unsupported(f"{INDIVIDUAL}:{fn.lineno}: Individual.evaluate is not `if <no fitness>: self.fitness = self.problem.evaluate(self.genome)`; `return self`")
+    evaluate_test = einl.inline(body[0].test, body[0])
 
     def test(t):
         if isinstance(t, ast.BoolOp):
@@ -423,7 +452,7 @@ def individual(mod):
         if u in ("self.fitness is not None",):
             return "(s_fit i)"
         raise Unsupported(f"{INDIVIDUAL}:{t.lineno}: Individual.evaluate: unsupported test {u[:100]}")
-    out.append(f"Definition gen_evaluate (i : sind) : sind * nat :=\n  if {test(body[0].test)} then (with_fitness i, b2n (s_own i)) else (i, 0).\n")
+    out.append(f"Definition gen_evaluate (i : sind) : sind * nat :=\n  if {test(evaluate_test)} then (with_fitness i, b2n (s_own i)) else (i, 0).\n")
 
     # evaluate_population
     fn = normalise(find_def(mod, "evaluate_population", "Individual"))
@@ -440,9 +469,12 @@ def individual(mod):
     fn = normalise(find_def(mod, "create_population", "Individual"))
     argn = [a.arg for a in fn.args.args]
     body = [s for s in fn.body if not (isinstance(s, ast.Expr) and isinstance(s.value, ast.Constant))]
-    ok = len(body) == 1 and isinstance(body[0], ast.Return) and isinstance(body[0].value, ast.ListComp) and set(argn[1:]) == {"pop_size", "problem", "initialize"}
+    ok = bool(body) and isinstance(body[-1], ast.Return) and set(argn[1:]) == {"pop_size", "problem", "initialize"} \
+        and all(isinstance(s_, (ast.Assign, ast.AnnAssign)) for s_ in body[:-1])
     if ok:
-        lc = body[0].value
+        lc = Inliner(fn, INDIVIDUAL).inline(body[-1].value, body[-1])
+        ok = isinstance(lc, ast.ListComp)
+    if ok:
         g = lc.generators[0]
         ok = len(lc.generators) == 1 and not g.ifs and ast.unparse(g.iter) == "range(pop_size)" and isinstance(lc.elt, ast.Call) and dotted(lc.elt.func) in ("cls", "Individual") \
             and sorted(ast.unparse(k) for k in lc.elt.keywords) == ["genome=initialize()", "problem=problem"] and not lc.elt.args
@@ -466,13 +498,17 @@ def ordering(mod):
     for name, meth, coq in (("__lt__", "worse_than", "FunctionProblem_worse_than mx a b"), ("__eq__", "equivalent", "Problem_equivalent a b")):
         fn = find_def(mod, name, "Individual")
         argn = [a.arg for a in fn.args.args]
-        body = [s_ for s_ in fn.body if not (isinstance(s_, ast.Expr) and isinstance(s_.value, ast.Constant))]
         on = argn[1] if len(argn) == 2 else "?"
-        ok = len(body) == 2 and isinstance(body[0], ast.If) and not body[0].orelse and ast.unparse(body[0].test) == f"{on} is None" and len(body[0].body) == 1 \
-            and ast.unparse(body[0].body[0]) == "return False" and ast.unparse(body[1]) == f"return self.problem.{meth}(self.fitness, {on}.fitness)"
-        if not ok:
-            raise Unsupported(f"{INDIVIDUAL}:{fn.lineno}: Individual.{name} is not `if other is None: return False`; `return self.problem.{meth}(self.fitness, other.fitness)`")
-        outs.append(f"Definition gen_ind{name.strip('_')[:2] and '_' + name.strip('_')} (mx : bool) (a b : F) : bool := {coq}.\n")
+        paths = return_paths(fn, INDIVIDUAL)
+        seen = {}
+        for conds, e in paths:
+            if len(conds) != 1 or ast.unparse(conds[0][0]) not in (f"{on} is None", f"{on} is not None"):
+                raise Unsupported(f"{INDIVIDUAL}:{fn.lineno}: Individual.{name}: a test other than `other is None`")
+            is_none = (ast.unparse(conds[0][0]) == f"{on} is None") == conds[0][1]
+            seen[is_none] = ast.unparse(e)
+        if seen != {True: "False", False: f"self.problem.{meth}(self.fitness, {on}.fitness)"}:
+            raise Unsupported(f"{INDIVIDUAL}:{fn.lineno}: Individual.{name} is not `False for None, else self.problem.{meth}(self.fitness, other.fitness)`: {seen}")
+        outs.append(f"Definition gen_ind_{name.strip('_')} (mx : bool) (a b : F) : bool := {coq}.\n")
     outs.append("Definition gen_ind_gt (mx : bool) (a b : F) : bool := negb (gen_ind_lt mx a b) && negb (gen_ind_eq mx a b).   (* functools.total_ordering *)\n")
     return outs
 
@@ -480,25 +516,23 @@ def ordering(mod):
 # ---------------------------------------------------------------------------------------------------- init_from_config / DemeTree.__init__
 def init_from_config(imod, amod):
     fn = find_def(imod, "init_from_config")
-    call = None
-    for n in ast.walk(fn):
-        if isinstance(n, ast.Call) and dotted(n.func) == "DemeInitArgs":
-            call = n
-    if call is None or call.args:
+    ret = [s for s in fn.body if isinstance(s, ast.Return)]
+    if len(ret) != 1 or any(isinstance(n, ast.Return) for s in fn.body if s is not ret[0] for n in ast.walk(s)):
+        raise Unsupported(f"{INIT}:{fn.lineno}: init_from_config returns in several places")
+    v = Inliner(fn, INIT).inline(ret[0].value, ret[0])
+    # <user table | built-in table>[type(config)](DemeInitArgs(...)): the built-in classes win, the class is chosen by the exact type of the level's configuration
+    ok = isinstance(v, ast.Call) and isinstance(v.func, ast.Subscript) and ast.unparse(v.func.slice) == "type(config)" and len(v.args) == 1 and not v.keywords \
+        and ast.unparse(v.func.value) == "config_class_to_deme_class | CONFIG_CLASS_TO_DEME_CLASS" and isinstance(v.args[0], ast.Call) and dotted(v.args[0].func) == "DemeInitArgs"
+    if not ok:
+        raise Unsupported(f"{INIT}:{fn.lineno}: init_from_config does not return (user table | built-in table)[type(config)](DemeInitArgs(...)): {ast.unparse(v)[:160]}")
+    call = v.args[0]
+    if call.args:
         raise Unsupported(f"{INIT}:{fn.lineno}: init_from_config does not build DemeInitArgs by keywords")
     kw = {k.arg: ast.unparse(k.value) for k in call.keywords}
     need = {"level": "target_level", "started_at": "metaepoch_count", "sprout_seed": "sprout_seed", "config": "config"}
-    for k, v in need.items():
-        if kw.get(k) != v:
-            raise Unsupported(f"{INIT}:{call.lineno}: DemeInitArgs({k}=...) is {kw.get(k)!r}, expected {v}")
-    ret = [s for s in fn.body if isinstance(s, ast.Return)]
-    ok = len(ret) == 1 and isinstance(ret[0].value, ast.Call) and isinstance(ret[0].value.func, ast.Subscript) and ast.unparse(ret[0].value.func.slice) == "type(config)" \
-        and len(ret[0].value.args) == 1 and not ret[0].value.keywords
-    if ok:
-        argname = ast.unparse(ret[0].value.args[0])
-        ok = any(isinstance(s, ast.Assign) and ast.unparse(s.targets[0]) == argname and s.value is call for s in fn.body)
-    if not ok:
-        raise Unsupported(f"{INIT}:{fn.lineno}: init_from_config does not return <class table>[type(config)](<the DemeInitArgs it built>)")
+    for k, val in need.items():
+        if kw.get(k) != val:
+            raise Unsupported(f"{INIT}:{call.lineno}: DemeInitArgs({k}=...) is {kw.get(k)!r}, expected {val}")
     # the dataclass has these fields
     cls = [n for n in amod.body if isinstance(n, ast.ClassDef) and n.name == "DemeInitArgs"]
     fields = {s.target.id for s in cls[0].body if isinstance(s, ast.AnnAssign) and isinstance(s.target, ast.Name)} if cls else set()
@@ -509,22 +543,23 @@ def init_from_config(imod, amod):
 
 
 def tree_init(tmod):
-    fn = find_def(tmod, "__init__", "DemeTree")
+    fn = normalise(find_def(tmod, "__init__", "DemeTree"))
+    inl = Inliner(fn, TREE)
     mc = levels = root = appended = None
     for s in fn.body:
         u = ast.unparse(s)
-        if isinstance(s, (ast.Assign, ast.AnnAssign)):
+        if isinstance(s, (ast.Assign, ast.AnnAssign)) and s.value is not None:
             t = ast.unparse(s.targets[0] if isinstance(s, ast.Assign) else s.target)
             if t == "self.metaepoch_count":
                 if not (isinstance(s.value, ast.Constant) and type(s.value.value) is int):
                     raise Unsupported(f"{TREE}:{s.lineno}: initial metaepoch_count {u[:80]}")
                 mc = s.value.value
             if t == "self._levels":
-                if ast.unparse(s.value) not in ("[[] for _ in range(nlevels)]", "[[] for _ in range(len(config.levels))]"):
+                if ast.unparse(canon(inl.inline(s.value, s))) != "[[] for _c0 in range(len(config.levels))]":
                     raise Unsupported(f"{TREE}:{s.lineno}: initial levels {u[:80]}")
                 levels = True
             if isinstance(s.value, ast.Call) and dotted(s.value.func) == "init_from_config":
-                kw = {k.arg: ast.unparse(k.value) for k in s.value.keywords}
+                kw = {k.arg: ast.unparse(inl.inline(k.value, s)) for k in s.value.keywords}
                 if s.value.args or kw.get("config") != "config.levels[0]" or kw.get("target_level") != "0" or kw.get("metaepoch_count") != "0" or kw.get("sprout_seed") != "None":
                     raise Unsupported(f"{TREE}:{s.lineno}: the root is not init_from_config(config=config.levels[0], target_level=0, metaepoch_count=0, sprout_seed=None, ...)")
                 root = t
